@@ -1083,7 +1083,9 @@ fn main() {
     if let Some(path) = replay_path() {
         let text = std::fs::read_to_string(&path).expect("replay file");
         let j: serde_json::Value = serde_json::from_str(&text).expect("replay json");
-        let src = j["src"].as_str().unwrap().to_string();
+        // the check script stores the harness' replay object under "replay"
+        let j = if j.get("src").is_some() { j } else { j["replay"].clone() };
+        let src = j["src"].as_str().expect("replay file without `src`").to_string();
         println!("source:            {src}");
         println!("engine AST:        {}", engine_ast(&src));
         let m = driver::run_batch(&exe, &[model_request(&src)]).map(|v| v[0].clone()).unwrap_or_else(|e| e);
@@ -1106,6 +1108,8 @@ fn main() {
         [X::Int(7), X::Int(3), X::Int(2), X::Int(5)],
         [X::Var("a".into()), X::Var("xs".into()), X::Var("flag".into()), X::Var("s".into())],
         [X::Var("u".into()), X::Str("lo".into()), X::Array(vec![(false, X::Int(3)), (false, X::Str("lo".into()))]), X::Bool(false)],
+        // container on the right, booleans inside: `not 1 not in [true]` etc. evaluate on both groupings
+        [X::Int(1), X::Array(vec![(false, X::Bool(true)), (false, X::Int(0))]), X::Array(vec![(false, X::Bool(false))]), X::Bool(true)],
     ];
     let mut full = Printer { doc: &doc, mode: Mode::Full, rng: rng.fork() };
     let mut minimal = Printer { doc: &doc, mode: Mode::Minimal(0), rng: rng.fork() };
